@@ -378,7 +378,11 @@ static void ownership_access(const void *addr, unsigned size, int is_store) {
     if (!ex || !g_seams.track || !g_in_data_call || g_no_preempt) return;
     g_access_checks++;
     int me = g_seams.owner;
-    int o = seams_block_owner(addr);
+    // most accesses hit the block touched last: cache its extent until the live set changes
+    static uintptr_t c_lo = 1, c_hi = 0; static int c_owner = -1; static uint64_t c_epoch = ~0ULL;
+    int o;
+    if (c_epoch == g_alloc_epoch && (uintptr_t) addr >= c_lo && (uintptr_t) addr < c_hi) o = c_owner;
+    else { uintptr_t lo = 1, hi = 0; o = seams_block_owner_ex(addr, &lo, &hi); if (o >= 0) { c_lo = lo; c_hi = hi; c_owner = o; c_epoch = g_alloc_epoch; } }
     if (o < 0) {
         if (is_store) for (auto &w : g_watched_statics) if ((uintptr_t) addr >= w.addr && (uintptr_t) addr < w.addr + w.size) {
             violate(ex, "C19", "C19.store_into_static." + w.name, strfmt("%u-byte store at offset %zu of %s by task %d", size, (size_t) ((uintptr_t) addr - w.addr), w.name.c_str(), me));
